@@ -18,7 +18,7 @@ BUDGET = {"quick": 600, "thorough": 3000}
 META = dict(
     rule="prefix tree: every series of length 1..N over {0,1,3,4,NaN} x method in {average,differential} x "
          "(suspect,fail) in ({None,.5,1,1.5,2,3})^2, each executed on the real spike_test (ndarray carrier; python "
-         "lists with None/NaN for N<=3) and judged per point by the scalar reference; plus float32 / float16 carriers at magnitudes (2^24, 2^11) where arithmetic in the narrow type is inexact; plus every unknown-method "
+         "lists with None/NaN for N<=3) and judged per point by the scalar reference; plus two long series (de Bruijn sequences holding every length-4 window, 628 and 2519 points); plus float32 / float16 carriers at magnitudes (2^24, 2^11) where arithmetic in the narrow type is inexact; plus every unknown-method "
          "spelling x thresholds x series of length<=3 (must raise ValueError). non-trivial = reference demands a "
          "SUSPECT or FAIL somewhere, or an exception",
     bounds={"quick": {"max_len": 5, "alphabet": list(SIGMA), "thresholds": list(THR)},
@@ -40,6 +40,7 @@ def tasks(tier):
         ts.append(("badmethod", m, 3))
     ts.append(("lists", 3))
     ts.append(("narrow",))
+    ts.append(("long", 0)); ts.append(("long", 1))
     return ts
 
 
@@ -82,6 +83,12 @@ def run_task(task, acc):
         _, m, n = task
         cases = (dict(x=list(x), suspect=s, fail=f, method=m)
                  for x in alpha.all_seqs(SIGMA, 1, n) for s, f in itertools.product(THR[:3], repeat=2))
+        run_cases(acc, cases, check_case)
+    elif kind == "long":
+        # long series: a de Bruijn sequence containing every length-4 window over the alphabet (x1 and x4 repeats)
+        base = alpha.debruijn(SIGMA, 4)
+        x = base if task[1] == 0 else base * 4 + base[:7]
+        cases = (dict(x=list(x), suspect=s, fail=f, method=m) for m in METHODS for s in THR for f in THR)
         run_cases(acc, cases, check_case)
     elif kind == "narrow":
         def gen():
